@@ -272,7 +272,8 @@ func (b *Biscuit) Seal(rng io.Reader) (*Biscuit, error) {
 
 	toSignAlgorithm := make([]byte, 4)
 	binary.LittleEndian.PutUint32(toSignAlgorithm[0:], uint32(lastBlock.NextKey.Algorithm.Number()))
-	toSign := append(lastBlock.Block[:], toSignAlgorithm...)
+	toSign := append([]byte{}, lastBlock.Block...)
+	toSign = append(toSign, toSignAlgorithm...)
 	toSign = append(toSign, lastBlock.NextKey.Key[:]...)
 	toSign = append(toSign, lastBlock.Signature[:]...)
 
@@ -348,7 +349,9 @@ func (b *Biscuit) authorizerFor(root ed25519.PublicKey, opts ...AuthorizerOption
 	algorithm := make([]byte, 4)
 	binary.LittleEndian.PutUint32(algorithm[0:], uint32(b.container.Authority.NextKey.Algorithm.Number()))
 
-	toVerify := append(b.container.Authority.Block[:], algorithm...)
+	// always a fresh buffer: appending to the token's own slice would write into its spare capacity
+	toVerify := append([]byte{}, b.container.Authority.Block...)
+	toVerify = append(toVerify, algorithm...)
 	toVerify = append(toVerify, b.container.Authority.NextKey.Key[:]...)
 
 	if ok := ed25519.Verify(currentKey, toVerify, b.container.Authority.Signature); !ok {
@@ -367,7 +370,8 @@ func (b *Biscuit) authorizerFor(root ed25519.PublicKey, opts ...AuthorizerOption
 
 		algorithm := make([]byte, 4)
 		binary.LittleEndian.PutUint32(algorithm[0:], uint32(block.NextKey.Algorithm.Number()))
-		toVerify := append(block.Block[:], algorithm...)
+		toVerify := append([]byte{}, block.Block...)
+		toVerify = append(toVerify, algorithm...)
 		toVerify = append(toVerify, block.NextKey.Key[:]...)
 
 		if ok := ed25519.Verify(currentKey, toVerify, block.Signature); !ok {
@@ -409,7 +413,8 @@ func (b *Biscuit) authorizerFor(root ed25519.PublicKey, opts ...AuthorizerOption
 
 			algorithm := make([]byte, 4)
 			binary.LittleEndian.PutUint32(algorithm[0:], uint32(lastBlock.NextKey.Algorithm.Number()))
-			toVerify := append(lastBlock.Block[:], algorithm...)
+			toVerify := append([]byte{}, lastBlock.Block...)
+			toVerify = append(toVerify, algorithm...)
 			toVerify = append(toVerify, lastBlock.NextKey.Key[:]...)
 			toVerify = append(toVerify, lastBlock.Signature[:]...)
 
